@@ -181,6 +181,10 @@ class Stream(ModelMixin["Stream"], Base):
         # media files are looked up by their lower-case name
         mf = MediaFile.get(name=filename.stem.lower())
         if mf:
+            if (self.timing_ref is not None and
+                    self.timing_ref.get('media_name') == mf.name):
+                # the replacement has not been indexed yet
+                self.timing_reference = None
             mf.delete_file()
             mf.delete()
         blob = Blob.get_one(filename=filename.name)
